@@ -245,7 +245,7 @@ pub fn build_inputs(a: &Args, rng: &mut Rng) -> Vec<RunInput> {
         for _ in 0..a.num("docs", 2000) {
             let prose = inputs::compose(&corpus, rng);
             let fr = rng.pick(&fronts[..]).clone();
-            let text = inputs::wrap_front(&fr, &prose, rng);
+            let text = if rng.chance(1, 3) { crate::c04::render(&fr, rng.next()) } else { inputs::wrap_front(&fr, &prose, rng) };
             // a random cut simulates the document while it is being typed
             let text = if rng.chance(1, 2) {
                 let cs: Vec<char> = text.chars().collect();
